@@ -371,7 +371,7 @@ func fnGetBit(ctx *cmdContext, args map[string]any) (output respValue, err error
 	keyName := args["key"].(string)
 	bit64 := args["offset"].(int64)
 
-	if bit64 < 0 {
+	if bit64 < 0 || bit64 > 4294967295 {
 		output.data = respErrorString("ERR bit offset is not an integer or out of range")
 		return
 	}
@@ -404,7 +404,8 @@ func fnSetBit(ctx *cmdContext, args map[string]any) (output respValue, err error
 	offset64 := args["offset"].(int64)
 	value64 := args["value"].(int64)
 
-	if offset64 < 0 {
+	if offset64 < 0 || offset64 > 4294967295 {
+		// the limit keeps the string below 512 MB
 		output.data = respErrorString("ERR bit offset is not an integer or out of range")
 		return
 	}
@@ -424,6 +425,11 @@ func fnSetBit(ctx *cmdContext, args map[string]any) (output respValue, err error
 	}
 
 	result := ctx.dsc.bitfieldWrite(keyName, []*bitfieldOp{op})
+	if result.isErrorType() {
+		// wrong type
+		output = result
+		return
+	}
 
 	// result is an array of 1; convert it to a single output value
 	ra := result.toNative().([]any)
